@@ -330,3 +330,40 @@ func errorEdges(fc *FCFG, typeFld *types.Var, lerror types.Object) []errEdge {
 	}
 	return out
 }
+
+// reachableAvoidingBlocks: like reachableAvoiding, additionally refusing to
+// pass through any block of `blocked` (other than the target itself).
+func (f *FCFG) reachableAvoidingBlocks(target *cfg.Block, cut []cfgEdge, blocked map[*cfg.Block]bool) bool {
+	if len(f.G.Blocks) == 0 {
+		return false
+	}
+	isCut := func(b *cfg.Block, k int) bool {
+		for _, e := range cut {
+			if e.B == b && e.K == k {
+				return true
+			}
+		}
+		return false
+	}
+	seen := map[*cfg.Block]bool{}
+	var dfs func(x *cfg.Block) bool
+	dfs = func(x *cfg.Block) bool {
+		if x == target {
+			return true
+		}
+		if blocked[x] {
+			return false
+		}
+		seen[x] = true
+		for i, s := range x.Succs {
+			if isCut(x, i) {
+				continue
+			}
+			if !seen[s] && dfs(s) {
+				return true
+			}
+		}
+		return false
+	}
+	return dfs(f.G.Blocks[0])
+}
